@@ -12,7 +12,9 @@ def main():
     a = ap.parse_args()
     what = a.what
     from gsim.core import seams
-    seams.load_repo()      # pristine import; the SUT itself only ever runs in forked children
+    seams.load_repo()      # pristine import
+    from gsim.core import procs
+    procs.snapshot_repo()  # import-time state every run starts from (forked child or in-process restore)
     if what.startswith("selftest"):
         from gsim import selftest
         sys.exit(selftest.run(what, a.tier))
